@@ -58,7 +58,7 @@ def gen(rng, tier):
         sd, st = rng.choice(STARTS)
         src = dict(kind='arrays', nt=rng.randint(1, 5), nl=rng.randint(1, 4), nr=rng.randint(1, 4), nc=rng.randint(1, 4),
                    nv=rng.randint(1, 2), sdate=sd, stime=st, tstep=rng.choice([10000, 3000, 240000, 20000, 1200000, 60000]),
-                   lv=sorted(rng.sample(range(0, 65), 5), reverse=True), withcf=False)
+                   lv=sorted(rng.sample(range(0, 65), 5), reverse=rng.random() < 0.7), withcf=False)  # sigma-like or height-like edges
         dl = dict(TSTEP=src['nt'], LAY=src['nl'], ROW=src['nr'], COL=src['nc'])
         ds = rng.sample(sorted(dl), rng.randint(1, 3))
         out.append(dict(src=src, recipes=[], ops=[['slice', [[d, _win(rng, dl[d])] for d in ds]]]))
